@@ -264,6 +264,10 @@ def _thrift_buf(prop, case, f):
     # ThriftObject.to_bytes allocates max(500000, 1000*ncols*nrgs + len(str(key_values))) bytes and write_thrift memcpy()s strings
     # into it without a bounds check: any metadata whose serialised form is larger (long statistics, names, paths, created_by)
     # corrupts the heap (abort / segfault)
+    if prop == "C16":
+        # _common_metadata has no row groups: the buffer is exactly len(str(key_values)) when that exceeds 500000, with no room for
+        # the schema and the remaining fields
+        return f.get("kind") in ("process_crash", "hang") and case.get("big") is True and case.get("target") == "_metadata"
     if f.get("kind") not in ("process_crash", "hang") or "big" not in case or case.get("big") == "kv_value":
         return False
     est = case["size"] * (1.5 if case["big"] == "statistics_max" else 1.0)
